@@ -197,7 +197,10 @@ async def _server_case(rng, case):
         d = b'setup-data' if 'd' in case['payload'] else b''
         m = b'setup-metadata' if 'm' in case['payload'] else None
         expect_payload = (d, m or b'')
-        rw.peer.send(setup_frame(lease=case['lease'], resume=case['resume'], token=b'tok', data=d, metadata=m,
+        # resume tokens of every length are resume requests, the empty one included
+        token = rng.choice([b'', b'', b't', b'tok', rng.randbytes(16), rng.randbytes(300)])
+        case['token_len'] = len(token)
+        rw.peer.send(setup_frame(lease=case['lease'], resume=case['resume'], token=token, data=d, metadata=m,
                                  data_mime=b'text/plain', metadata_mime=b'application/x.custom'))
     else:
         if case['after'] == 'setup':
